@@ -355,6 +355,21 @@ Section BridgeCall.
   Definition execute_claim_tx (m : bcmsg) (s : bst) : bst * bool := tx (execute_claim m) s.
 End BridgeCall.
 
+(* ------------------------------------------------------------------------------------------ *)
+(** * Not a boundary: a SendToFx claim forwarded over IBC (send_to_fx.go SendToFxExecuted / transferIBCHandler) *)
+
+Section SendToFxIbc.
+  Variable S : Type.
+  Variable consume : S -> S.            (* ExecuteClaim: DeletePendingExecuteClaim *)
+  Variable deposit : S -> result S.     (* BridgeTokenToBaseCoin to the receiver *)
+  Variable to_voucher : S -> result S.  (* BaseCoinToIBCCoin: burn the base coin, hand out the voucher of the target channel *)
+  Variable transfer : S -> result S.    (* ibc transfer keeper Transfer: burn / escrow, SendPacket *)
+  (* all on the one context, every error returned *)
+  Definition send_to_fx_ibc (s : S) : result S :=
+    bind (deposit (consume s)) (fun s1 => bind (to_voucher s1) transfer).
+  Definition send_to_fx_ibc_tx (s : S) : S * bool := tx send_to_fx_ibc s.
+End SendToFxIbc.
+
 (* designated outcome of a failed contract call: the claim is consumed and a refund bridge call for the
    deposited amounts exists; nobody's balance has changed (the deposit went out again as the refund) *)
 Definition bc_designated (m : bcmsg) (pre : bst) : bst :=
